@@ -255,7 +255,7 @@ h("cont.H_OptionalFault", map[string]int{"rounds": 3, "order_schemes": 1}, map[s
 	hcb := h("cont.H_CloseInCallback", map[string]int{"order_schemes": 1}, map[string]int{"order_schemes": 2}, []string{"callback_closed"}, 10, cbDesc)
 	properties = append(properties,
 		propertySpec{ID: "C09", Harnesses: []harnessSpec{hcb, hrace, hrace2, hg2, hg2w1,
-			h("cont.H_SharedCodeConc", map[string]int{"rounds": 1, "race": 1, "g2": 1, "order_schemes": 1}, map[string]int{"rounds": 2, "race": 1, "g2": 1, "order_schemes": 1}, []string{"both_done"}, 0, "(race detector on, G2 scheduling with one pre-emption in front of any lock / atomic / sync.Map operation of godi, i.e. inside the analyzer's cache and the scope tables) constructors sharing code resolved by two goroutines in their own scopes; no race, no panic, no error, each service built by its own constructor"),
+			h("cont.H_SharedCodeConc", map[string]int{"rounds": 1, "race": 1, "g2": 1, "order_schemes": 1}, map[string]int{"rounds": 1, "race": 1, "g2": 1, "order_schemes": 2}, []string{"both_done"}, 0, "(race detector on, G2 scheduling with one pre-emption in front of any lock / atomic / sync.Map operation of godi, i.e. inside the analyzer's cache and the scope tables) constructors sharing code resolved by two goroutines in their own scopes; no race, no panic, no error, each service built by its own constructor"),
 			h("cont.H_SharedCodeConc", map[string]int{"rounds": 2, "order_schemes": 1}, map[string]int{"rounds": 2, "order_schemes": 1}, []string{"both_done"}, 10, "(happens-before race detector on) scoped or transient services whose constructors share code - reflect.MakeFunc values of two different signatures (natively one code pointer, so the analysis cache keeps being rewritten after Build), or closures of one literal under two names with a yielding dependency - resolved alternately by two goroutines in their own scopes; every interleaving at the resolution boundaries; no race, no panic, no error, each service built by its own constructor"),
 		}},
 		propertySpec{ID: "C13", Harnesses: []harnessSpec{
@@ -273,6 +273,11 @@ h("cont.H_OptionalFault", map[string]int{"rounds": 3, "order_schemes": 1}, map[s
 		switch properties[i].ID {
 		case "C13", "C14":
 			properties[i].Harnesses = append(properties[i].Harnesses, hnochild)
+		}
+	}
+	for i := range properties {
+		if properties[i].ID == "C05" {
+			properties[i].Harnesses = append(properties[i].Harnesses, h("cont.H_AuxCycle", map[string]int{"order_schemes": 2}, map[string]int{"order_schemes": 4}, []string{"cyclic", "acyclic"}, 10, "a dependency cycle that runs through the SECOND output of a multi-output constructor (result object whose first field is plain / named / a value-group member, or a multi-return constructor; scoped or transient) - or the same set without the closing edge: Build reports a CircularDependencyError exactly in the cyclic case, everything resolves in the acyclic one"))
 		}
 	}
 	hempty := h("cont.H_EmptyIn", map[string]int{"order_schemes": 1}, map[string]int{"order_schemes": 2}, []string{"built", "resolved"}, 10, "constructors whose only parameter is a parameter object WITHOUT any injectable field (only the embedded godi.In, or only ignored / unexported fields), as a service of symbolic lifetime with a consumer and optionally as a scoped initializer: the set has no dependency problem, so Build accepts it, scope creation works, every identity resolves, the parameter object arrives untouched")
